@@ -103,19 +103,14 @@ func (c *Client) Backoff(err error) <-chan struct{} {
 func (c *Client) Ping(quit <-chan struct{}) error {
 	// install callback
 	done := make(chan error, 1)
-	select {
-	case c.pingAck <- done:
-		break // OK
-	default:
+	if !c.pingAck.CompareAndSwap(nil, &done) {
 		return fmt.Errorf("%w; PING unavailable", ErrMax)
 	}
 
 	// submit transaction
 	if err := c.write(quit, packetPINGREQ); err != nil {
-		select {
-		case <-c.pingAck: // unlock
-		default: // picked up by unrelated pong
-		}
+		// unlock, unless picked up by unrelated pong
+		c.pingAck.CompareAndSwap(&done, nil)
 		if errors.Is(err, ErrSubmit) {
 			return fmt.Errorf("%w; PING in limbo", err)
 		}
@@ -126,12 +121,11 @@ func (c *Client) Ping(quit <-chan struct{}) error {
 	case err := <-done:
 		return err
 	case <-quit:
-		select {
-		case <-c.pingAck: // unlock
+		if c.pingAck.CompareAndSwap(&done, nil) { // unlock
 			return fmt.Errorf("%w; PING not confirmed", ErrAbandoned)
-		default: // picked up in mean time
-			return <-done
 		}
+		// picked up in mean time
+		return <-done
 	}
 }
 
@@ -139,11 +133,9 @@ func (c *Client) onPINGRESP() error {
 	if len(c.peek) != 0 {
 		return fmt.Errorf("%w: PINGRESP with %d byte remaining length", errProtoReset, len(c.peek))
 	}
-	select {
-	case ack := <-c.pingAck:
-		close(ack)
-	default:
-		break // tolerates wandering pong
+	// tolerates wandering pong
+	if ack := c.pingAck.Swap(nil); ack != nil {
+		close(*ack)
 	}
 	return nil
 }
